@@ -250,12 +250,12 @@ Step(st, dv, o) ==
 
 \* ---- the instantiated alphabet at step number n (the value written by step n is n) -----------
 \* "full" alphabet, and a "core" sub-alphabet (one form per key, fewer literal shapes) for the deepest exhaustive level
-SetForms(c) == IF c THEN {<<"a", "id">>, <<"b", "comp">>, <<"1", "num">>}
+SetForms(c) == IF c THEN {<<"a", "id">>, <<"1", "num">>}
                ELSE {<<"a", "id">>, <<"a", "str">>, <<"b", "comp">>, <<"b", "id">>, <<"1", "num">>, <<"1", "str">>}
-DelForms(c) == IF c THEN {<<"a", "id">>, <<"1", "num">>} ELSE {<<"a", "id">>, <<"b", "comp">>, <<"1", "num">>, <<"a", "str">>}
-DefForms(c) == IF c THEN {<<"a", "get">>, <<"a", "set">>, <<"b", "gs">>, <<"a", "val">>}
+DelForms(c) == IF c THEN {<<"a", "id">>} ELSE {<<"a", "id">>, <<"b", "comp">>, <<"1", "num">>, <<"a", "str">>}
+DefForms(c) == IF c THEN {<<"a", "get">>, <<"a", "set">>, <<"a", "val">>}
                ELSE {<<"a", "get">>, <<"a", "set">>, <<"b", "gs">>, <<"a", "val">>, <<"1", "get">>, <<"b", "val">>}
-LitForms(c) == IF c THEN {"empty", "data_a", "getset_a", "comp_b"} ELSE LitVariants
+LitForms(c) == IF c THEN {"empty", "data_a", "getset_a"} ELSE LitVariants
 Recv(st)     == {x \in Touch : Alloc(st, x)}
 PlainObjs(st) == {x \in Touch : st.h[x].kind = "plain"}
 CreationOps(st, n, c) ==
